@@ -16,13 +16,15 @@ from .. import exactfam as E
 from ..qlib import lib, q_from_float, q_to_float, omul, oherm, ofro, units, EPS
 
 
-def measure(rec, cls, detail, A, fro2=None, trace=None):
+def measure(rec, cls, detail, A, fro2=None, trace=None, pow2=0):
+    """pow2: the library is given A * 2^pow2 and its H is scaled back by 2^-pow2 (both exact) before judging, so that
+    magnitudes at which the ORACLE's own squares would underflow can be judged too"""
     L = lib()
     n = A.shape[0]
     t = rec.new("hessenbergize", cls, detail)
     A0 = A.copy()
-    Pq, Hq = L.hess.hessenbergize(q_from_float(A))
-    Pf, Hf = q_to_float(np.asarray(Pq)), q_to_float(np.asarray(Hq))
+    Pq, Hq = L.hess.hessenbergize(q_from_float(A * 2.0 ** pow2))
+    Pf, Hf = q_to_float(np.asarray(Pq)), q_to_float(np.asarray(Hq)) * 2.0 ** -pow2
     rec.eqint(t, "Shapes", [list(Pf.shape[:2]), list(Hf.shape[:2])], [[n, n], [n, n]])
     if list(Pf.shape[:2]) != [n, n] or list(Hf.shape[:2]) != [n, n]:
         return
@@ -49,8 +51,8 @@ def measure(rec, cls, detail, A, fro2=None, trace=None):
             Pq[0, :] = Pq[0, :] * 2.0
         except Exception:
             pass
-        P2q, H2q = L.hess.hessenbergize(q_from_float(A0))
-        P2, H2 = q_to_float(np.asarray(P2q)), q_to_float(np.asarray(H2q))
+        P2q, H2q = L.hess.hessenbergize(q_from_float(A0 * 2.0 ** pow2))
+        P2, H2 = q_to_float(np.asarray(P2q)), q_to_float(np.asarray(H2q)) * 2.0 ** -pow2
         t2 = rec.new("hessenbergize", cls + ":after-caller-overwrote-result", dict(detail, second_call=True))
         if list(P2.shape[:2]) == [n, n] and list(H2.shape[:2]) == [n, n]:
             rec.units(t2, "UnitaryP", S.unitary_units(P2))
@@ -142,6 +144,9 @@ def _structure_job(args):
                 Dn = G.copy()
                 Dn[1:, 0] *= 2.0 ** e_
                 measure(rec, "underflow-subcolumn", {"A": "G with column 0 below the diagonal scaled by 2^%d" % e_, "n": n}, Dn)
+            # the WHOLE matrix that small (every modulus formed anywhere in the reduction is affected)
+            for e_ in (-520, -540, -560, -700, -1000):
+                measure(rec, "underflow-uniform", {"A": "G * 2^%d" % e_, "n": n}, G, pow2=e_)
             # only the PIVOT entry of the sub-column (the one the reflector maps the column onto) is that small while
             # the rest of the column is O(1): its modulus must not be formed from squared components either
             for e_ in (-505, -512, -520, -530, -536, -540, -545, -1074):
